@@ -2098,6 +2098,9 @@ func calleeName(cc *ssa.CallCommon) string {
 		return cc.Method.Name()
 	}
 	if f := cc.StaticCallee(); f != nil {
+		if f.Pkg != nil && f.Pkg.Pkg != nil && strings.HasSuffix(f.Pkg.Pkg.Path(), "shmipc-go") {
+			return f.RelString(f.Pkg.Pkg)
+		}
 		return f.String()
 	}
 	return ""
@@ -2131,6 +2134,15 @@ func (fr *Frame) ghostAtCall(call *ssa.Call, res []Term) {
 			t := sig.Results().At(i).Type()
 			vars[fmt.Sprintf("r%d", i)] = sval{t: r, typ: t, sort: sortOf(t)}
 		}
+		// a0, a1, ...: the call's arguments (a0 is the receiver of a method call)
+		k := 0
+		if call.Common().IsInvoke() {
+			vars["a0"] = sval{t: fr.val(call.Common().Value), typ: call.Common().Value.Type(), sort: sortOf(call.Common().Value.Type())}
+			k = 1
+		}
+		for i, a := range call.Common().Args {
+			vars[fmt.Sprintf("a%d", i+k)] = sval{t: fr.val(a), typ: a.Type(), sort: sortOf(a.Type())}
+		}
 		se := fr.specEnvFor(fr.cur, fr.entry, fr.mergeVars(vars), true)
 		se.bound = map[string]bool{}
 		for k := range vars {
@@ -2161,7 +2173,7 @@ func (fr *Frame) initGhosts() {
 				}
 			}
 		}
-		if found <= ac.N {
+		if found <= ac.N && !ac.Optional {
 			specFail("anchor-missing: call %s#%d not found (contract line %d)", ac.Callee, ac.N, ac.Line)
 		}
 	}
